@@ -129,7 +129,7 @@ def run(ctx, factor):
                     d2["pattern"][j] = {k.upper(): it[k]}
             if d2 != doc:
                 one(ctx, d2, gen_rules.realise(g, doc), "letter-case-near-miss")
-        if rep.violations and factor > 1:
+        if rep.has_new() and factor > 1:
             return
 
 
